@@ -298,6 +298,22 @@ func init() {
 				r, ok := relOf(iff.Cond, true)
 				return ok && matchRel(r, "<", loadOfField(fSafe), loadOfField(fSafe))
 			}, []Ev{guardRel("ExpiredAt>=now", ">=", loadOfField(fExpired), nowUnix)}, all, "only live (not expired) entries compete for the minimum")
+			// the scan is unbounded: every registered service takes part
+			loadRange := P.IMethod("server/kv", "Base", "LoadRange")
+			for _, scanFn := range []*ssa.Function{loadMin, st("GetAllServiceGCSafePoints")} {
+				okScan := false
+				for _, ci := range callsIn(scanFn, false, loadRange) {
+					if a := callArgs(ci.Common()); len(a) == 3 {
+						if z, isC := constInt(a[2]); isC && z == 0 {
+							okScan = true
+						} else {
+							okScan = false
+							break
+						}
+					}
+				}
+				c.Check(okScan, "C15/scan-all-services", "LoadRange in "+fnName(scanFn), "service safe points are scanned without a limit (limit 0)", P.pos(scanFn.Pos()), "bounded scan: services beyond the limit are ignored")
+			}
 			n := len(callsIn(loadMin, false, F(initGW)))
 			c.Check(n >= 3, "C15/gc-worker-recreated", "calls of "+initGW.Name()+" in "+fnName(loadMin),
 				"gc_worker is re-created on the three stated paths (no keys, no valid safe point, gc_worker missing)", P.pos(loadMin.Pos()), fmt.Sprintf("found %d", n))
